@@ -28,6 +28,8 @@ func init() {
 			{ID: "R12.8", Template: "T-SIBLING", Text: "attaching a listener to a host function does not change what happens to its result slots (same analysis as C08 R08.10)", Min: 4},
 			{ID: "R12.7", Template: "T-CONSULT", Text: "the interpreter indexes a cached function's source-offset table only under a length test of that table", Min: 1},
 			{ID: "R12.1", Template: "T-SIBLING", Text: "identity covers every compile input (call-site agreement, every parameter hashed, per-function listener presence)", Min: 4},
+			{ID: "R12.10", Template: "T-SIBLING", Text: "identity inputs are kept apart: no two unshifted 0/1 flags are merged into one hashed byte", Min: 1},
+			{ID: "R12.11", Template: "T-SIBLING", Text: "compile path and cache-hit path derive \"compiled with listeners\" the same way for the module context layout", Min: 1},
 			{ID: "R12.2", Template: "T-WHOCALLS", Text: "no read of a configuration-dependent, non-identity module field in the compile paths", Min: 2},
 			{ID: "R12.3", Template: "T-SIBLING", Text: "fields assigned on the compile path ⊆ fields assigned on the cache-hit path ∪ deserialisation", Min: 1},
 			{ID: "R12.4", Template: "T-NONINTERF", Text: "memory sizer: min/max independent of the capacity flag", Min: 1},
@@ -39,6 +41,8 @@ func init() {
 			{Name: "identity-ignores-debug-info", File: "internal/wasm/module.go", Old: "\tm.ID[0] = boolToByte(m.DWARFLines != nil)\n\th.Write(m.ID[:1])\n", New: "", Rule: "R12.2", Substr: "DWARFLines"},
 			{Name: "listener-arm-masks-host-results", File: "internal/engine/wazevo/call_engine.go", Old: "\t\t\t\tf.Call(ctx, callerModule, s)\n\t\t\t}()\n\t\t\t// Call Listener.After.\n\t\t\tlistener.After(ctx, callerModule, def, s[:len(def.ResultTypes())])", New: "\t\t\t\tf.Call(ctx, callerModule, s)\n\t\t\t}()\n\t\t\t// Call Listener.After.\n\t\t\tclearUpper32Bits(s, def.ParamTypes())\n\t\t\tlistener.After(ctx, callerModule, def, s[:len(def.ResultTypes())])", Rule: "R12.8", Substr: "GoModuleFunctionWithListener"},
 			{Name: "offset-table-guarded-by-instance-flag", File: "internal/engine/interpreter/interpreter.go", Old: "\t\tif parent := frame.f.parent; parent.body != nil && len(parent.offsetsInWasmBinary) > 0 {\n\t\t\tsources = parent.source.DWARFLines.Line(parent.offsetsInWasmBinary[frame.pc])", New: "\t\tif dw := f.moduleInstance.Source.DWARFLines; dw != nil && f.parent.body != nil {\n\t\t\tsources = dw.Line(f.parent.offsetsInWasmBinary[frame.pc])", Rule: "R12.7", Substr: "source-offset"},
+			{Name: "id-flags-merged", File: "internal/wasm/module.go", Old: "\tm.ID[0] = boolToByte(withEnsureTermination)\n\th.Write(m.ID[:1])\n", New: "", Old2: "\tm.ID[0] = boolToByte(m.DWARFLines != nil)\n", New2: "\tm.ID[0] = boolToByte(withEnsureTermination) | boolToByte(m.DWARFLines != nil)\n", Rule: "R12.10", Substr: "kept apart"},
+			{Name: "compile-path-counts-non-nil-listeners", File: "internal/engine/wazevo/engine.go", Old: "\twithListener := len(listeners) > 0\n", New: "\twithListener := false\n\tfor _, l := range listeners {\n\t\tif l != nil {\n\t\t\twithListener = true\n\t\t}\n\t}\n", Rule: "R12.11", Substr: "agree"},
 			{Name: "id-without-termination-flag", File: "runtime.go", Old: "internal.AssignModuleID(binary, listeners, r.ensureTermination)", New: "internal.AssignModuleID(binary, listeners, false)", Rule: "R12.1", Substr: "call-site"},
 			{Name: "id-drops-termination-param", File: "internal/wasm/module.go", Old: "\tm.ID[0] = boolToByte(withEnsureTermination)\n\th.Write(m.ID[:1])\n", New: "\t_ = withEnsureTermination\n", Rule: "R12.1", Substr: "withEnsureTermination"},
 			{Name: "id-listener-count-only", File: "internal/wasm/module.go", Old: "\tfor i, l := range listeners {\n\t\tbinary.LittleEndian.PutUint32(m.ID[:], uint32(i))\n\t\tm.ID[4] = boolToByte(l != nil)\n\t\th.Write(m.ID[:5])\n\t}", New: "\tn := 0\n\tfor _, l := range listeners {\n\t\tif l != nil {\n\t\t\tn++\n\t\t}\n\t}\n\tbinary.LittleEndian.PutUint32(m.ID[:], uint32(n))\n\th.Write(m.ID[:4])", Rule: "R12.1", Substr: "per-function"},
@@ -125,6 +129,7 @@ func runC12(c *core.Ctx) {
 	// ---- R12.1 (b) every parameter flows into the hash; listeners per element inside the loop
 	if assignFn != nil && assignFn.Blocks != nil {
 		checkIDHash(c, assignFn)
+		checkIDFlagsInjective(c, assignFn)
 	}
 
 	// ---- R12.2 configuration-dependent fields
@@ -232,6 +237,8 @@ func runC12(c *core.Ctx) {
 			c.Undecided("R12.2", "matcher self-test", 0, "the field-read matcher found no use of Memory.Cap in internal/wasm")
 		}
 	}
+
+	checkListenerPresenceAgrees(c)
 
 	// ---- R12.3 cache hit re-binds everything
 	checkCacheRebind(c)
